@@ -6,7 +6,7 @@ rnd, pid = sys.argv[1], sys.argv[2]
 src = f"/tmp/{rnd}/out/{pid}"
 m = json.load(open(f"{src}/meta.json"))
 conf = json.load(open(f"{src}/confirm.json"))
-RN = {'seed': 1, 'seed2': 2, 'seed3': 3, 'seed4': 4, 'seed5': 5, 'seed6': 6, 'seed7': 7}[rnd]
+RN = int(rnd[4:] or 1)  # seed, seed2, seed3, ...
 name = f"{pid}-r{RN}"
 dst = f"/verif/seeded/{name}"
 os.makedirs(dst, exist_ok=True)
